@@ -15,6 +15,8 @@ import (
 
 	"gitee.com/Trisia/gotlcp/dtlcp"
 	"verifharness/internal/hx"
+	"verifharness/internal/pair"
+	"verifharness/internal/pki"
 )
 
 // ---------------------------------------------------------------- shared encodings
@@ -270,7 +272,9 @@ func execTX(desc string) string {
 		q := newQconn()
 		c := dtlcp.Client(q, q.remote, &dtlcp.Config{PMTU: pmtu})
 		maxp := dtlcp.VerifMaxPayloadSizeForWrite(c)
-		full, _, err := dtlcp.VerifWriteHandshakeFinished(c, uint16(seq), m)
+		full, after, _, err := dtlcp.VerifWriteHandshakeFinished(c, uint16(seq), m)
+		// marshal() of the message object after the write must still be the unfragmented encoding
+		keep := b01(string(full) == string(after) && string(full) == string(append(hsHeader(20, len(m), seq, 0, len(m)), m...)))
 		if err != nil {
 			out = fmt.Sprintf("max=%d err=%s sent=%d", maxp, errKind(err), len(q.out))
 			return
@@ -296,12 +300,11 @@ func execTX(desc string) string {
 		} else {
 			rt = "m:" + enc(raw)
 		}
-		_ = full
 		rs := "-"
 		if len(recs) > 0 {
 			rs = strings.Join(recs, ",")
 		}
-		out = fmt.Sprintf("max=%d recs=%s rt=%s", maxp, rs, rt)
+		out = fmt.Sprintf("max=%d recs=%s rt=%s keep=%s", maxp, rs, rt, keep)
 		if bad {
 			out += " badrec=1"
 		}
@@ -310,6 +313,123 @@ func execTX(desc string) string {
 		return "panic=" + p
 	}
 	return out
+}
+
+var e2eSuite = map[string]uint16{"ecc-gcm": dtlcp.ECC_SM4_GCM_SM3, "ecc-cbc": dtlcp.ECC_SM4_CBC_SM3,
+	"ecdhe-gcm": dtlcp.ECDHE_SM4_GCM_SM3, "ecdhe-cbc": dtlcp.ECDHE_SM4_CBC_SM3}
+
+// largest handshake message length announced in the epoch-0 handshake records of a side
+func biggest(dgs [][]byte) int {
+	big := 0
+	for _, d := range dgs {
+		for len(d) >= 13 {
+			n := int(d[11])<<8 | int(d[12])
+			if 13+n > len(d) {
+				break
+			}
+			if d[0] == 22 && d[3] == 0 && d[4] == 0 && n >= 12 {
+				if t := int(d[14])<<16 | int(d[15])<<8 | int(d[16]); t > big {
+					big = t
+				}
+			}
+			d = d[13+n:]
+		}
+	}
+	return big
+}
+
+// execE2E: one real handshake, client PMTU cp, server PMTU sp; randomness-independent outcome
+func execE2E(desc string) string {
+	su, _ := hx.KV(desc, "suite")
+	cp, sp := hx.KVInt(desc, "cp"), hx.KVInt(desc, "sp")
+	var out string
+	p := hx.Guard(func() {
+		std := pki.Std()
+		ccfg, scfg := pair.DClient(), pair.DServer()
+		id := e2eSuite[su]
+		ccfg.CipherSuites, scfg.CipherSuites = []uint16{id}, []uint16{id}
+		ccfg.PMTU, scfg.PMTU = cp, sp
+		if strings.HasPrefix(su, "ecdhe") {
+			ccfg.Certificates = []dtlcp.Certificate{pair.DCert(std.CliSig), pair.DCert(std.CliEnc)}
+			scfg.ClientAuth = dtlcp.RequireAndVerifyClientCert
+			scfg.ClientCAs = std.Root.Pool
+		}
+		c, s, ce, se, r := pair.DTLCP(ccfg, scfg, nil)
+		defer ce.Close()
+		defer se.Close()
+		bc, bs := biggest(ce.SentCopy()), biggest(se.SentCopy())
+		if !r.OK() {
+			out = fmt.Sprintf("hs=fail bigC=%d bigS=%d", bc, bs)
+			return
+		}
+		ccf, csf, cv, csu, cr, cn := dtlcp.VerifHandshakeOutcome(c)
+		scf, ssf, sv, ssu, sr, sn := dtlcp.VerifHandshakeOutcome(s)
+		same := cv == sv && csu == ssu && cr == sr
+		// a value an end did not store (the second Finished on the server side) is all zero:
+		// compare what both ends recorded; at least one value must be comparable
+		isZero := func(b []byte) bool {
+			for _, x := range b {
+				if x != 0 {
+					return false
+				}
+			}
+			return true
+		}
+		compared, equal := 0, true
+		for _, pr := range [][2][]byte{{ccf, scf}, {csf, ssf}} {
+			if !isZero(pr[0]) && !isZero(pr[1]) {
+				compared++
+				equal = equal && string(pr[0]) == string(pr[1])
+			}
+		}
+		fin := compared > 0 && equal && !isZero(ccf) && !isZero(csf)
+		out = fmt.Sprintf("hs=ok cs=%d.%d.%s.%d.%d same=%s fin=%s bigC=%d bigS=%d", cv, csu, b01(cr), cn, sn, b01(same), b01(fin), bc, bs)
+	})
+	if p != "" {
+		return "panic=" + p
+	}
+	return out
+}
+
+func genE2E(o hx.Opts, emit func(string)) {
+	thorough := o.Tier == "thorough"
+	small := map[string]int{"ecc-gcm": 50, "ecdhe-gcm": 50, "ecc-cbc": 77, "ecdhe-cbc": 77} // smallest workable, see the oracle
+	for _, su := range []string{"ecc-gcm", "ecc-cbc", "ecdhe-gcm", "ecdhe-cbc"} {
+		emit(fmt.Sprintf("kind=e2e suite=%s cp=1400 sp=1400", su)) // baseline
+		emit(fmt.Sprintf("kind=e2e suite=%s cp=0 sp=0", su))
+		m := small[su]
+		vals := []int{m, m + 1, 64, 100, 118, 119, 200, 600, 1400}
+		if su[len(su)-3:] == "cbc" {
+			vals = []int{m, m + 1, 90, 100, 118, 119, 135, 200, 600, 1400}
+		}
+		ecdhe := strings.HasPrefix(su, "ecdhe")
+		for _, a := range vals {
+			for _, b := range vals {
+				if ecdhe && !thorough && a != b && a > m+1 && b > m+1 {
+					continue // ECDHE in the quick tier: the diagonal and every pair with one side tiny
+				}
+				emit(fmt.Sprintf("kind=e2e suite=%s cp=%d sp=%d", su, a, b))
+			}
+		}
+		if thorough {
+			// one step below the smallest workable value (fails after the 30 s watchdog: thorough only)
+			emit(fmt.Sprintf("kind=e2e suite=%s cp=%d sp=1400", su, m-1))
+		}
+		// every PMTU value of a range on one side, a sample on the other
+		top, others := 300, []int{1400}
+		if thorough {
+			top, others = 1500, []int{m, 119, 1400}
+		}
+		if ecdhe && !thorough {
+			top = m + 80
+		}
+		for p := m; p <= top; p++ {
+			for _, q := range others {
+				emit(fmt.Sprintf("kind=e2e suite=%s cp=%d sp=%d", su, p, q))
+				emit(fmt.Sprintf("kind=e2e suite=%s cp=%d sp=%d", su, q, p))
+			}
+		}
+	}
 }
 
 func execute(desc string) string {
@@ -321,21 +441,23 @@ func execute(desc string) string {
 		return execRX(desc)
 	case "tx":
 		return execTX(desc)
+	case "e2e":
+		return execE2E(desc)
 	}
 	return "badcase=1"
 }
 
 // ---------------------------------------------------------------- generators
 
-type pair struct{ off, length int }
+type olPair struct{ off, length int }
 
 // every (off,len) with off+len <= n+1: all in-range fragments (incl. zero-length) and the
 // ones that exceed the announced length by one
-func pairs(n int) []pair {
-	var ps []pair
+func pairs(n int) []olPair {
+	var ps []olPair
 	for off := 0; off <= n+1; off++ {
 		for l := 0; off+l <= n+1; l++ {
-			ps = append(ps, pair{off, l})
+			ps = append(ps, olPair{off, l})
 		}
 	}
 	return ps
@@ -768,5 +890,8 @@ func main() {
 	}
 	if o.Phase == "" || o.Phase == "tx" {
 		genTX(o, emit)
+	}
+	if o.Phase == "" || o.Phase == "e2e" {
+		genE2E(o, emit)
 	}
 }
